@@ -173,7 +173,15 @@ impl Transport for MemTransport {
                 "harness request cap reached",
             ));
         }
-        let served = st.files.get(&key).cloned().unwrap_or(Served::NotFound);
+        // like a web server: the resource is looked up under the raw path first, then under the
+        // percent-decoded one
+        let served = st
+            .files
+            .get(&us)
+            .cloned()
+            .or_else(|| st.files.get(&key).cloned())
+            .or_else(|| st.files.get(&pct_decode(&key)).cloned())
+            .unwrap_or(Served::NotFound);
         let idx = st.log.len();
         st.log.push(ReqLog {
             name: key.clone(),
@@ -232,4 +240,22 @@ impl Transport for MemTransport {
             delivered: 0,
         }))
     }
+}
+
+pub fn pct_decode(s: &str) -> String {
+    let b = s.as_bytes();
+    let mut out = Vec::with_capacity(b.len());
+    let mut i = 0;
+    while i < b.len() {
+        if b[i] == b'%' && i + 2 < b.len() + 0 && i + 2 <= b.len() - 1 + 0 {
+            if let Ok(v) = u8::from_str_radix(&s[i + 1..i + 3], 16) {
+                out.push(v);
+                i += 3;
+                continue;
+            }
+        }
+        out.push(b[i]);
+        i += 1;
+    }
+    String::from_utf8_lossy(&out).to_string()
 }
